@@ -115,7 +115,7 @@ func init() {
 			witnessFamily("C07"),
 			{Name: "matrix", N: tierN(1200, 12000), Run: c07Matrix},
 			{Name: "boolops", N: tierN(1000, 10000), Run: c07BoolOps},
-			{Name: "rand", N: tierN(150000, 1500000), Run: c07Random},
+			{Name: "rand", N: tierN(150000, 6000000), Run: c07Random},
 		},
 	})
 }
